@@ -147,6 +147,18 @@ def generated_cuts(tier):
     return out
 
 
+DANGLING = [
+    ('S2', [[MAINNAME, ['kt 5', '%include inc.conf']], ['x/inc.conf', [['<ta ', W('n1'), '>'], ['  ka ', V('v1')]]]]),
+    ('S2', [[MAINNAME, ['%include inc.conf', 'kt 5']], ['x/inc.conf', [['<', W('t1'), ' n1>'], '  ka 1']]]),
+    ('S4', [[MAINNAME, ['<ta>', '  %include sub/inc.conf', '  ka 1', '</ta>']],
+            ['x/sub/inc.conf', ['<tb>', ['  <tc ', W('n1'), '/>']]]]),
+    ('S4', [[MAINNAME, ['<ta>', '<tb>', '%include inc.conf', '</tb>', '</ta>']],
+            ['x/inc.conf', [['<tc ', W('n1'), '>'], ['kc ', V('v1')]]]]),
+    ('S2', [[MAINNAME, ['kt 5', '%include a.conf']], ['x/a.conf', ['%include b.conf']],
+            ['x/b.conf', [['<ta ', W('n1'), '>'], '  ka 1']]]),
+]
+
+
 def _rel(from_file, to_file):
     a = from_file.split('/')[:-1]
     b = to_file.split('/')
@@ -207,6 +219,10 @@ class C06(P.TextMixin, Harness):
         us = []
         seen = set()
         import json
+        # fragments that leave one of their own sections open while the includer is complete: the
+        # inlined text is unbalanced too, so nothing but the fragment's own end can refuse it
+        for sid, files in DANGLING:
+            us.append({'schema': sid, 'files': files, 'balanced': False, 'base': 'dangling'})
         for base, cuts, bal in (CUTS_Q if tier == 'quick' else CUTS_T) + generated_cuts(tier):
             sid, files = make_files(base, cuts)
             u = {'schema': sid, 'files': files, 'balanced': bal, 'base': base}
